@@ -42,16 +42,16 @@ Definition prod_arity (p : string) : nat :=
 (* ---------- p_id ---------------------------------------------------------------------------- *)
 Definition first_c (s : string) : option ascii := match s with String c _ => Some c | _ => None end.
 Definition normalize_id (s : string) : string :=
-  (* for (start,end) in [(`,`),(",") ,([,])]: if startswith and endswith: strip one pair — the loop
-     goes on with the stripped value (mirrors the code, incl. stripping a second pair) *)
-  let step (s : string) (a b : ascii) : string :=
-      if (match first_c s with Some c => Ascii.eqb c a | None => false end)
-         && (match last_char s with Some c => Ascii.eqb c b | None => false end)
-      then take (String.length s - 2) (drop 1 s) else s in
+  (* for (start,end) in [(`,`),(",") ,([,])]: if startswith and endswith: strip that ONE pair and stop (break) *)
+  let hit (s : string) (a b : ascii) : bool :=
+      (match first_c s with Some c => Ascii.eqb c a | None => false end)
+      && (match last_char s with Some c => Ascii.eqb c b | None => false end) in
+  let strip1 (s : string) : string := take (String.length s - 2) (drop 1 s) in
   if (2 <? String.length s)%nat then
-    let s1 := step s "`"%char "`"%char in
-    let s2 := step s1 """"%char """"%char in
-    step s2 "["%char "]"%char
+    if hit s "`"%char "`"%char then strip1 s
+    else if hit s """"%char """"%char then strip1 s
+    else if hit s "["%char "]"%char then strip1 s
+    else s
   else s.
 
 (* ---------- the actions ---------------------------------------------------------------------- *)
